@@ -507,6 +507,9 @@ def make_problem(spec) -> Problem:
         other = make_problem(spec["geometry_from"])
         if other.n == n:
             lb, ub, x0 = other.lb.copy(), other.ub.copy(), other.x0.copy()
+    if spec.get("start_scale"):
+        # a start so far out that the first (unit-length) step is below half an ulp of the iterate: the first trial point IS x0
+        x0 = np.clip(np.where(x0 == 0, 1.0, x0) * float(spec["start_scale"]), lb, ub)
     if meta.get("domain_positive"):
         x0 = np.clip(np.abs(x0) + 0.3, lb, ub)  # start inside the objective's domain whenever the box allows it
     return Problem(dict(spec), n, f, g, lb, ub, x0, meta)
